@@ -51,7 +51,7 @@ class IntegratorKrylov(Integrator):
             krylov_tridiag, krylov_basis = \
                 self._lanczos_algorithm(rand_ket(N).data)
             if (
-                krylov_tridiag.shape[0] < krylov_dim
+                krylov_tridiag.shape[0] <= krylov_dim
                 or krylov_tridiag.shape[0] == N
             ):
                 self._max_step = np.inf
